@@ -189,6 +189,19 @@ func runC20(rc *RunCtx) {
 	}
 	keys := []string{"key-1", "key-2"}
 	local := &net.TCPAddr{IP: net.IPv4(203, 0, 113, 5), Port: 9000}
+	// a slow database and scrapes while lookups are under way: what a scrape or a
+	// close books in the meantime must carry the client's class all the same
+	if G.Draw(3) == 0 {
+		db.Latency = time.Duration(1+G.Draw(5)) * time.Millisecond
+		for k, n := 0, 1+G.Draw(3); k < n; k++ {
+			at := time.Duration(G.Draw(8)) * time.Millisecond
+			simrt.GoNamed(fmt.Sprintf("c20-scraper-%d", k), func() {
+				simrt.Sleep(at)
+				collectFamilies(prom)
+				simrt.Probe("scrape_during_activity")
+			})
+		}
+	}
 	for i, c := range d.clients {
 		i, c := i, c
 		n := 1 + G.Draw(3)
